@@ -50,6 +50,24 @@ func parse(src string, m Mode) ParseOut {
 	return ParseOut{Prog: prog, Err: err, Errors: p.Errors(), P: p}
 }
 
+// parsePolled is parse with the error list read out of the usual order: before ParseProgram (and, with during, from a
+// pass-through statement interceptor while the parse is under way). Errors() is a query; asking early changes nothing.
+func parsePolled(src string, m Mode, during bool) ParseOut {
+	b := newBuilder(m)
+	if during {
+		b.UseStatementInterceptor(func(p *parser.Parser, next func() ast.Statement) ast.Statement {
+			_ = len(p.Errors())
+			st := next()
+			_ = len(p.Errors())
+			return st
+		})
+	}
+	p := b.Build(src)
+	_ = len(p.Errors())
+	prog, err := p.ParseProgram()
+	return ParseOut{Prog: prog, Err: err, Errors: p.Errors(), P: p}
+}
+
 // recycledBuilders: long-lived default-mode parser builders with a history (per worker process, single goroutine): each
 // was first configured with smart semicolons and tolerant mode, built and ran a parser, and was then switched back to
 // the default modes in one of three ways. From then on it builds one parser per text. A builder is a value users keep
